@@ -92,6 +92,8 @@ NEIGHBOURS = [
     "CREATE TABLE nb%d (a int, cache int, b varchar(10) DEFAULT 'x');",
     "CREATE TABLE s.nb%d (start date, increment decimal(10,2) NOT NULL);",
     "CREATE TABLE nb%d (id int PRIMARY KEY, no int, order int NOT NULL, noorder int);",
+    # neighbours that set lexer modes (LIKE, CHECK, ALTER, bracket types): a sequence after them must still be exact
+    "CREATE TABLE nb%d LIKE s.other;", "CREATE TABLE nb%d (LIKE src_t);", "CREATE TABLE nb%d (m MAP<STRING, INT>, a int CHECK (a > 0));",
 ]
 
 
